@@ -16,7 +16,7 @@ def hw_specs(tier, rng):
     acc = []
     for sp in families.accel_specs(stripped=False, names=["sigma", "extensor", "outerspace", "gamma"]):
         acc.append(dict(sp, hw=True, family=sp["family"] + "-metrics", plain_yaml=families.strip_sections(sp["yaml"], spacetime=False)))
-    return acc + sample(hwfamily.gen_hw, rng, 40 if q else 400)
+    return acc + hwfamily.hw_core() + sample(hwfamily.gen_hw, rng, 40 if q else 400)
 
 
 def run(tier, rep):
